@@ -549,6 +549,17 @@ def main(argv=None):
             except BaseException:
                 traceback.print_exc()
             outdir = os.path.join(HERE, "out", "replays", prop)
+            # the minimiser re-runs the failing case in THIS process: a library that leaks descriptors (or whatever the violation is about)
+            # has by now used up this process's budget too - the verdict must still be written
+            try:
+                import gc
+                import resource
+
+                gc.collect()
+                _soft, _hard = resource.getrlimit(resource.RLIMIT_NOFILE)
+                resource.setrlimit(resource.RLIMIT_NOFILE, (_hard if _hard > 0 else 4096, _hard))
+            except Exception:  # noqa: BLE001
+                pass
             violation_path = os.path.relpath(write_replay(prop, first, outdir), HERE)
 
     wall = time.time() - t0
